@@ -5,11 +5,19 @@ Import ListNotations.
 Open Scope Z_scope.
 
 (* ------------------------------------------------------------------ registry *)
+Lemma wf_registry_parts : forall R, wf_registry R = true ->
+  forallb wf_class (r_classes R) = true /\ codes_unique R = true /\ returns_ok R = true /\
+  objects_distinct R = true /\ vendor_ok R = true.
+Proof.
+  intros R H. unfold wf_registry in H.
+  apply andb_true_iff in H as [H H5]. apply andb_true_iff in H as [H H4].
+  apply andb_true_iff in H as [H H3]. apply andb_true_iff in H as [H1 H2]. auto.
+Qed.
+
 Lemma registry_class_wf : forall R c,
   wf_registry R = true -> In c (r_classes R) -> wf_fields (c_fields c) = true.
 Proof.
-  intros R c H Hin. unfold wf_registry in H.
-  apply andb_true_iff in H as [H _]. apply andb_true_iff in H as [H _].
+  intros R c H Hin. apply wf_registry_parts in H as [H _].
   rewrite forallb_forall in H. specialize (H c Hin). unfold wf_class in H.
   apply andb_true_iff in H as [H _]. apply andb_true_iff in H as [H _]. exact H.
 Qed.
@@ -47,6 +55,43 @@ Lemma find_class_sound : forall R k code c,
 Proof.
   intros R k code c H. unfold find_class in H. apply find_some in H as [Hin Hm].
   apply andb_true_iff in Hm as [H1 H2]. apply Z.eqb_eq in H1. apply Z.eqb_eq in H2. auto.
+Qed.
+
+(* kind consistency: the class a dispatcher finds in its registry writes that dispatcher's
+   event code *)
+Definition expected_event (kind code : Z) : Z :=
+  if kind =? K_EVENT then code
+  else if kind =? K_LE_EVENT then HCI_LE_META_EVENT
+  else if kind =? K_VENDOR then HCI_VENDOR_EVENT
+  else 0.
+
+Lemma wf_class_event : forall c, wf_class c = true -> c_event c = expected_event (c_kind c) (c_code c).
+Proof.
+  intros c H. unfold wf_class in H. apply andb_true_iff in H as [H Hk].
+  apply andb_true_iff in H as [_ Hr]. apply andb_true_iff in Hr as [Hr0 Hr4].
+  apply Z.leb_le in Hr0. apply Z.leb_le in Hr4.
+  unfold expected_event, K_COMMAND, K_EVENT, K_LE_EVENT, K_VENDOR, K_RETURN in *.
+  destruct (c_kind c =? 0) eqn:E0.
+  - apply Z.eqb_eq in E0. rewrite E0. cbn. apply andb_true_iff in Hk as [_ Hk]. apply Z.eqb_eq. exact Hk.
+  - destruct (c_kind c =? 3) eqn:E3.
+    + apply Z.eqb_eq in E3. rewrite E3. cbn. apply Z.eqb_eq. exact Hk.
+    + destruct (c_kind c =? 1) eqn:E1.
+      * apply andb_true_iff in Hk as [_ Hk]. apply Z.eqb_eq. exact Hk.
+      * destruct (c_kind c =? 2) eqn:E2.
+        -- apply andb_true_iff in Hk as [_ Hk]. apply Z.eqb_eq. exact Hk.
+        -- apply Z.eqb_neq in E0. apply Z.eqb_neq in E1. apply Z.eqb_neq in E2. apply Z.eqb_neq in E3.
+           assert (c_kind c = 4) as E4 by lia. rewrite E4. cbn.
+           apply andb_true_iff in Hk as [_ Hk]. apply Z.eqb_eq. exact Hk.
+Qed.
+
+Definition kinds_ok (R : registry) : Prop := forallb wf_class (r_classes R) = true.
+
+Lemma class_event_ok : forall R kind code c, kinds_ok R ->
+  find_class R kind code = Some c -> c_event c = expected_event kind code.
+Proof.
+  intros R kind code c HK Hf. destruct (find_class_sound R kind code c Hf) as [Hin [Hk Hc]].
+  unfold kinds_ok in HK. rewrite forallb_forall in HK.
+  rewrite (wf_class_event c (HK c Hin)), Hk, Hc. reflexivity.
 Qed.
 
 (* the lifted theorems: for every class of a well-formed registry *)
@@ -221,58 +266,109 @@ Proof.
   assert ((length ps <? 256)%nat = true) as -> by (apply Nat.ltb_lt; exact Hl). reflexivity.
 Qed.
 
+Lemma event_code_not_special : forall code,
+  code <> HCI_LE_META_EVENT -> code <> HCI_VENDOR_EVENT -> forall R ps,
+  event_body R code ps = plain_event R code ps.
+Proof.
+  intros code H1 H2 R ps. unfold event_body.
+  assert (code =? HCI_LE_META_EVENT = false) as -> by (apply Z.eqb_neq; exact H1).
+  assert (code =? HCI_VENDOR_EVENT = false) as -> by (apply Z.eqb_neq; exact H2).
+  reflexivity.
+Qed.
+
 Theorem event_roundtrip : forall R c vs ps,
-  find_class R K_EVENT (c_code c) = Some c ->
+  find_class R K_EVENT (c_code c) = Some c -> c_event c = c_code c ->
   c_code c <> HCI_LE_META_EVENT -> c_code c <> HCI_COMMAND_COMPLETE_EVENT ->
+  c_code c <> HCI_VENDOR_EVENT ->
   wf_fields (c_fields c) = true -> u_range 1 (c_code c) = true ->
   serialize_fields (c_fields c) vs = Some ps -> (length ps < 256)%nat ->
   in_range (c_fields c) (last ps 0) vs = true ->
   exists b, packet_bytes R (PEvent (c_code c) true vs ps) = Some b /\
             forall extra, parse_packet R (b ++ extra) = Some (PEvent (c_code c) true vs ps).
 Proof.
-  intros R c vs ps Hf Hn1 Hn2 Hw Hc Hs Hlen Hi.
+  intros R c vs ps Hf Hev Hn1 Hn2 Hn3 Hw Hc Hs Hlen Hi.
   exists (HCI_EVENT_PACKET :: c_code c :: Z.of_nat (length ps) :: ps). split.
-  - cbn [packet_bytes]. unfold class_params. rewrite Hf, Hs. cbv iota. rewrite cached_same.
+  - cbn [packet_bytes]. unfold class_params, class_event. rewrite Hf, Hs, Hev. cbv iota. rewrite cached_same.
     apply event_bytes_shape; assumption.
   - intro extra.
     destruct (parse_serialize _ (last ps 0) vs Hw Hi) as [b' [n [Hs' [Hp Hn]]]].
-    rewrite Hs in Hs'. inversion Hs'; subst b'. clear Hs'.
+    rewrite Hs in Hs'. assert (b' = ps) as -> by congruence. clear Hs'.
     cbn [app]. rewrite parse_packet_event, parse_event_frame by exact Hlen.
-    unfold event_body.
-    assert (c_code c =? HCI_LE_META_EVENT = false) as -> by (apply Z.eqb_neq; exact Hn1).
-    rewrite Hf. unfold parse_at0. rewrite Hp.
+    rewrite event_code_not_special by assumption.
+    unfold plain_event. rewrite Hf. unfold parse_at0. rewrite Hp.
     assert (c_code c =? HCI_COMMAND_COMPLETE_EVENT = false) as -> by (apply Z.eqb_neq; exact Hn2).
     reflexivity.
 Qed.
 
 Theorem le_meta_roundtrip : forall R c vs ps,
-  find_class R K_LE_EVENT (c_code c) = Some c ->
+  find_class R K_LE_EVENT (c_code c) = Some c -> c_event c = HCI_LE_META_EVENT ->
   wf_fields (c_fields c) = true -> u_range 1 (c_code c) = true ->
   serialize_fields (c_fields c) vs = Some ps -> (length ps < 255)%nat ->
   in_range (c_fields c) (c_code c) vs = true ->
   exists b, packet_bytes R (PLeMeta (c_code c) true vs (c_code c :: ps)) = Some b /\
             forall extra, parse_packet R (b ++ extra) = Some (PLeMeta (c_code c) true vs (c_code c :: ps)).
 Proof.
-  intros R c vs ps Hf Hw Hc Hs Hlen Hi.
+  intros R c vs ps Hf Hev Hw Hc Hs Hlen Hi.
   exists (HCI_EVENT_PACKET :: HCI_LE_META_EVENT :: Z.of_nat (length (c_code c :: ps)) :: c_code c :: ps).
   split.
-  - cbn [packet_bytes cached]. apply event_bytes_shape; [reflexivity | cbn [length]; lia].
+  - cbn [packet_bytes cached]. unfold class_event. rewrite Hf, Hev.
+    apply event_bytes_shape; [reflexivity | cbn [length]; lia].
   - intro extra.
     destruct (parse_serialize _ (c_code c) vs Hw Hi) as [b' [n [Hs' [Hp Hn]]]].
-    rewrite Hs in Hs'. inversion Hs'; subst b'. clear Hs'.
+    rewrite Hs in Hs'. assert (b' = ps) as -> by congruence. clear Hs'.
     cbn [app]. rewrite parse_packet_event.
     change (c_code c :: ps ++ extra) with ((c_code c :: ps) ++ extra).
     rewrite parse_event_frame by (cbn [length]; lia).
     unfold event_body. rewrite Z.eqb_refl. rewrite Hf, Hp. reflexivity.
 Qed.
 
-(* bytes -> packet -> bytes for every kind of event, exact length, non-empty parameters *)
-Theorem event_bytes_roundtrip : forall R code ps p,
+(* what a vendor factory returns is a vendor sub-event packet holding the parameter block *)
+Lemma vendor_factories_shape : forall R rules ps p,
+  vendor_factories R rules ps = Some (Some p) ->
+  exists sub vs c, p = PVendorSub sub vs ps /\ find_class R K_VENDOR sub = Some c.
+Proof.
+  intros R rules ps p. induction rules as [|[sub ids] rest IH]; intro H; [discriminate|].
+  cbn [vendor_factories] in H.
+  destruct ps as [|s [|q tl]]; try (apply IH; exact H).
+  destruct ((s =? sub) && existsb (Z.eqb q) ids) eqn:E; [|apply IH; exact H].
+  destruct (find_class R K_VENDOR sub) as [c|] eqn:Ef; [|discriminate].
+  destruct (parse_fields (c_fields c) s (q :: tl)) as [[vs n]|]; [|discriminate].
+  injection H as <-. exists sub, vs, c. split; [reflexivity | exact Ef].
+Qed.
+
+Lemma plain_event_bytes : forall R code ps p, kinds_ok R ->
+  u_range 1 code = true -> (length ps < 256)%nat -> ps <> [] ->
+  plain_event R code ps = Some p ->
+  packet_bytes R p = Some (HCI_EVENT_PACKET :: code :: Z.of_nat (length ps) :: ps).
+Proof.
+  intros R code ps p HK Hcr Hlen Hne Hp. unfold plain_event in Hp.
+  destruct (find_class R K_EVENT code) as [c|] eqn:Ef.
+  - pose proof (class_event_ok R K_EVENT code c HK Ef) as Hev. cbn in Hev.
+    destruct (parse_at0 (c_fields c) ps) as [vs|]; [|discriminate].
+    destruct (code =? HCI_COMMAND_COMPLETE_EVENT) eqn:E2.
+    + apply Z.eqb_eq in E2. subst code.
+      destruct vs as [|n [|[op| | |] [|x [|]]]]; try discriminate.
+      destruct (existsb (Z.eqb op) (r_custom_return R)).
+      * injection Hp as <-. cbn [packet_bytes]. rewrite cached_nonempty by assumption.
+        unfold class_event. rewrite Ef, Hev. apply event_bytes_shape; assumption.
+      * destruct (parse_return R op (skipn 3 ps)) as [[rn rvs]|]; [|discriminate].
+        injection Hp as <-. cbn [packet_bytes]. rewrite cached_nonempty by assumption.
+        unfold class_event. rewrite Ef, Hev. apply event_bytes_shape; assumption.
+    + injection Hp as <-. cbn [packet_bytes]. rewrite cached_nonempty by assumption.
+      unfold class_event. rewrite Ef, Hev. apply event_bytes_shape; assumption.
+  - injection Hp as <-. cbn [packet_bytes]. rewrite cached_nonempty by assumption.
+    unfold class_event. apply event_bytes_shape; assumption.
+Qed.
+
+(* bytes -> packet -> bytes for every kind of event, exact length, non-empty parameters.
+   Rests on kind consistency: whatever class the dispatcher for this event code finds
+   writes this event code back. *)
+Theorem event_bytes_roundtrip : forall R code ps p, kinds_ok R ->
   bytes_ok (code :: ps) = true -> (length ps < 256)%nat -> ps <> [] ->
   parse_event R (HCI_EVENT_PACKET :: code :: Z.of_nat (length ps) :: ps) = Some p ->
   packet_bytes R p = Some (HCI_EVENT_PACKET :: code :: Z.of_nat (length ps) :: ps).
 Proof.
-  intros R code ps p Hok Hlen Hne Hp.
+  intros R code ps p HK Hok Hlen Hne Hp.
   rewrite parse_event_frame_exact in Hp by exact Hlen.
   rewrite bytes_ok_cons in Hok. apply andb_true_iff in Hok as [Hc Hok].
   assert (Hcr : u_range 1 code = true).
@@ -281,38 +377,38 @@ Proof.
   destruct (code =? HCI_LE_META_EVENT) eqn:E1.
   - apply Z.eqb_eq in E1. subst code.
     destruct ps as [|sub rest]; [discriminate|].
-    destruct (find_class R K_LE_EVENT sub).
-    + destruct (parse_fields (c_fields c) sub rest) as [[vs n]|]; [|discriminate].
-      inversion Hp; subst. cbn [packet_bytes cached]. apply event_bytes_shape; assumption.
-    + inversion Hp; subst. cbn [packet_bytes cached]. apply event_bytes_shape; assumption.
-  - destruct (find_class R K_EVENT code).
-    + destruct (parse_at0 (c_fields c) ps) as [vs|]; [|discriminate].
-      destruct (code =? HCI_COMMAND_COMPLETE_EVENT) eqn:E2.
-      * apply Z.eqb_eq in E2. subst code.
-        destruct vs as [|n [|[op| | |] [|x [|]]]]; try discriminate.
-        destruct (parse_return R op (skipn 3 ps)) as [[rn rvs]|]; [|discriminate].
-        inversion Hp; subst. cbn [packet_bytes]. rewrite cached_nonempty by assumption.
-        apply event_bytes_shape; assumption.
-      * inversion Hp; subst. cbn [packet_bytes]. rewrite cached_nonempty by assumption.
-        apply event_bytes_shape; assumption.
-    + inversion Hp; subst. cbn [packet_bytes]. rewrite cached_nonempty by assumption.
+    destruct (find_class R K_LE_EVENT sub) as [c|] eqn:Ef.
+    + pose proof (class_event_ok R K_LE_EVENT sub c HK Ef) as Hev. cbn in Hev.
+      destruct (parse_fields (c_fields c) sub rest) as [[vs n]|]; [|discriminate].
+      injection Hp as <-. cbn [packet_bytes cached]. unfold class_event. rewrite Ef, Hev.
       apply event_bytes_shape; assumption.
+    + injection Hp as <-. cbn [packet_bytes cached]. unfold class_event.
+      apply event_bytes_shape; assumption.
+  - destruct (code =? HCI_VENDOR_EVENT) eqn:E3.
+    + apply Z.eqb_eq in E3. subst code.
+      destruct (vendor_factories R (r_vendor R) ps) as [[q|]|] eqn:Ev; [| |discriminate].
+      * injection Hp as <-.
+        destruct (vendor_factories_shape R _ ps q Ev) as [sub [vs [c [-> Ef]]]].
+        pose proof (class_event_ok R K_VENDOR sub c HK Ef) as Hev. cbn in Hev.
+        cbn [packet_bytes]. rewrite cached_nonempty by assumption.
+        unfold class_event. rewrite Ef, Hev. apply event_bytes_shape; assumption.
+      * exact (plain_event_bytes R _ ps p HK Hcr Hlen Hne Hp).
+    + exact (plain_event_bytes R code ps p HK Hcr Hlen Hne Hp).
 Qed.
 
 (* unknown event code / sub-event code: generic packet, parameters preserved byte for byte *)
 Theorem unknown_event_preserved : forall R code params,
-  code <> HCI_LE_META_EVENT -> find_class R K_EVENT code = None ->
+  code <> HCI_LE_META_EVENT -> code <> HCI_VENDOR_EVENT -> find_class R K_EVENT code = None ->
   u_range 1 code = true -> (length params < 256)%nat ->
   let b := HCI_EVENT_PACKET :: code :: Z.of_nat (length params) :: params in
   parse_packet R b = Some (PEvent code false [] params) /\
   packet_bytes R (PEvent code false [] params) = Some b.
 Proof.
-  intros R code params Hn Hf Hc Hlen b. subst b. split.
+  intros R code params Hn Hn2 Hf Hc Hlen b. subst b. split.
   - rewrite parse_packet_event, parse_event_frame_exact by exact Hlen.
-    unfold event_body.
-    assert (code =? HCI_LE_META_EVENT = false) as -> by (apply Z.eqb_neq; exact Hn).
-    rewrite Hf. reflexivity.
-  - cbn [packet_bytes]. unfold class_params. cbv iota. rewrite cached_generic.
+    rewrite event_code_not_special by assumption.
+    unfold plain_event. rewrite Hf. reflexivity.
+  - cbn [packet_bytes]. unfold class_params, class_event. cbv iota. rewrite cached_generic.
     apply event_bytes_shape; assumption.
 Qed.
 
@@ -326,7 +422,47 @@ Proof.
   intros R sub rest Hf Hc Hlen params b. subst b params. split.
   - rewrite parse_packet_event, parse_event_frame_exact by (cbn [length]; lia).
     unfold event_body. rewrite Z.eqb_refl, Hf. reflexivity.
-  - cbn [packet_bytes cached]. apply event_bytes_shape; [reflexivity | cbn [length]; lia].
+  - cbn [packet_bytes cached]. unfold class_event.
+    apply event_bytes_shape; [reflexivity | cbn [length]; lia].
+Qed.
+
+(* a vendor event that every registered factory declines is the generic vendor event, its
+   data the parameter block byte for byte *)
+Definition no_rule_matches (rules : list (Z * list Z)) (params : list Z) : bool :=
+  match params with
+  | s :: q :: _ => negb (existsb (fun r => (s =? fst r) && existsb (Z.eqb q) (snd r)) rules)
+  | _ => true
+  end.
+
+Lemma vendor_declined : forall R rules params,
+  no_rule_matches rules params = true -> vendor_factories R rules params = Some None.
+Proof.
+  intros R rules params. induction rules as [|[sub ids] rest IH]; intro H; [reflexivity|].
+  cbn [vendor_factories]. destruct params as [|s [|q tl]]; try (apply IH; reflexivity).
+  cbn [no_rule_matches existsb fst snd] in H. apply negb_true_iff in H.
+  apply orb_false_iff in H as [H1 H2]. rewrite H1. apply IH.
+  cbn [no_rule_matches]. apply negb_true_iff. exact H2.
+Qed.
+
+Theorem vendor_generic_preserved : forall R c params,
+  no_rule_matches (r_vendor R) params = true ->
+  find_class R K_EVENT HCI_VENDOR_EVENT = Some c -> c_fields c = [F1 Rest] -> c_event c = HCI_VENDOR_EVENT ->
+  (length params < 256)%nat ->
+  let b := HCI_EVENT_PACKET :: HCI_VENDOR_EVENT :: Z.of_nat (length params) :: params in
+  parse_packet R b = Some (PEvent HCI_VENDOR_EVENT true [VBytes params] params) /\
+  packet_bytes R (PEvent HCI_VENDOR_EVENT true [VBytes params] params) = Some b.
+Proof.
+  intros R c params Hno Hf Hfs Hev Hlen b. subst b. split.
+  - rewrite parse_packet_event, parse_event_frame_exact by exact Hlen.
+    unfold event_body. change (HCI_VENDOR_EVENT =? HCI_LE_META_EVENT) with false.
+    rewrite Z.eqb_refl. cbv iota. rewrite (vendor_declined R _ params Hno).
+    unfold plain_event. rewrite Hf, Hfs. unfold parse_at0, parse_fields, F1.
+    cbn [par_seq par F_codec field_codec par_field N_codec par_a].
+    change (HCI_VENDOR_EVENT =? HCI_COMMAND_COMPLETE_EVENT) with false. reflexivity.
+  - cbn [packet_bytes]. unfold class_params, class_event. rewrite Hf, Hfs, Hev.
+    unfold serialize_fields, F1.
+    cbn [ser Top_codec seq_codec ser_seq F_codec field_codec ser_field N_codec ser_a].
+    rewrite app_nil_r, cached_same. apply event_bytes_shape; [reflexivity | exact Hlen].
 Qed.
 
 (* ------------------------------------------------------------------ bit fields by complete evaluation *)
@@ -659,6 +795,7 @@ Qed.
 
 Theorem cmd_complete_roundtrip : forall R cc rc num op rn sf rvs rb,
   find_class R K_EVENT HCI_COMMAND_COMPLETE_EVENT = Some cc -> c_fields cc = CC_FIELDS ->
+  c_event cc = HCI_COMMAND_COMPLETE_EVENT -> existsb (Z.eqb op) (r_custom_return R) = false ->
   assoc op (r_return R) = Some (rn, sf) -> find_by_name R K_RETURN rn = Some rc ->
   wf_fields (c_fields rc) = true ->
   serialize_fields (c_fields rc) rvs = Some rb -> in_range (c_fields rc) (last rb 0) rvs = true ->
@@ -668,16 +805,17 @@ Theorem cmd_complete_roundtrip : forall R cc rc num op rn sf rvs rb,
   exists b, packet_bytes R (PCmdComplete [VInt num; VInt op] rn rvs []) = Some b /\
             parse_packet R b = Some (PCmdComplete [VInt num; VInt op] rn rvs ps).
 Proof.
-  intros R cc rc num op rn sf rvs rb Hcc Hfs Hret Hrc Hw Hs Hi Hst Hn Ho Hlen ps.
+  intros R cc rc num op rn sf rvs rb Hcc Hfs Hev Hcust Hret Hrc Hw Hs Hi Hst Hn Ho Hlen ps.
   assert (Hpl : (length ps < 256)%nat).
   { unfold ps. rewrite !app_length, !le_encode_length. lia. }
   exists (HCI_EVENT_PACKET :: HCI_COMMAND_COMPLETE_EVENT :: Z.of_nat (length ps) :: ps). split.
-  - cbn [packet_bytes cached]. rewrite Hrc, Hcc, Hs, Hfs. cbn [app].
+  - cbn [packet_bytes cached]. unfold class_event. rewrite Hrc, Hcc, Hs, Hfs, Hev. cbn [app].
     rewrite cc_ser by assumption. fold ps. apply event_bytes_shape; [reflexivity | exact Hpl].
   - rewrite parse_packet_event, parse_event_frame_exact by exact Hpl.
-    unfold event_body. change (HCI_COMMAND_COMPLETE_EVENT =? HCI_LE_META_EVENT) with false. cbv iota.
+    rewrite event_code_not_special by discriminate.
+    unfold plain_event.
     rewrite Hcc, Hfs. unfold ps at 1. rewrite cc_par by assumption.
-    rewrite Z.eqb_refl.
+    rewrite Z.eqb_refl, Hcust.
     assert (skipn 3 ps = rb) as ->.
     { unfold ps. rewrite app_assoc. apply skipn_len_app. rewrite app_length, !le_encode_length. reflexivity. }
     unfold parse_return. rewrite Hret, Hrc.
